@@ -46,6 +46,10 @@ type Run struct {
 	start time.Time
 
 	Only  *regexp.Regexp // replay: evaluate only matching obligations
+	// keep/prefix are set while the obligations of another property's rule table
+	// are imported (see Import).
+	keep   func(key string) bool
+	prefix string
 
 	Explanation string
 	NotDecided  string
@@ -63,6 +67,10 @@ func NewRun(prop, tier string, p *Prog) *Run {
 // Check evaluates one obligation. A panic inside f, or an obligation that
 // neither failed nor matched any site, is reported as unresolved (fail-closed).
 func (r *Run) Check(key, rule string, f func(o *O)) *O {
+	if r.keep != nil && !r.keep(key) {
+		return &O{Key: key, Rule: rule, Verdict: Held, run: r}
+	}
+	key = r.prefix + key
 	o := &O{Key: r.Prop + "-" + key, Rule: rule, Verdict: Held, run: r}
 	if r.Only != nil && !r.Only.MatchString(o.Key) {
 		return o
@@ -86,6 +94,21 @@ func (r *Run) Check(key, rule string, f func(o *O)) *O {
 		o.Msgs = append(o.Msgs, "rule matched no site (vacuous): anchor not found on the current tree")
 	}
 	return o
+}
+
+// Import evaluates the obligations of another property's rule table that
+// satisfy keep, under this property (keys get the given prefix). Used where a
+// property rests on a mechanism whose rules live in another table (the rolling
+// window under the breaker, the timing wheel and the single-flight group under
+// the caches).
+func (r *Run) Import(table func(*Run), prefix string, keep func(key string) bool) {
+	expl, nd := r.Explanation, r.NotDecided
+	r.keep, r.prefix = keep, prefix
+	defer func() {
+		r.keep, r.prefix = nil, ""
+		r.Explanation, r.NotDecided = expl, nd
+	}()
+	table(r)
 }
 
 // Site records n matched sites (constructs the rule actually inspected).
